@@ -147,12 +147,11 @@ theorem tfFloorDiv_sound {r1 r2 : Rng} (h1 : Valid r1) (h2 : Valid r2) {x y : In
   split
   · -- the divisor is negative: divide the negated dividend by the negated divisor
     rename_i hneg
-    have hyneg : y < 0 := by
-      have := le_trans' hy.2 (le_of_lt hneg); simpa using this
     obtain ⟨d, hd⟩ : ∃ d, r2.2 = int d := by
       rcases valid_cases h2 with ⟨a, b, rfl, _⟩ | ⟨b, rfl⟩ | ⟨a, rfl⟩ | rfl <;> simp_all [PyNum.lt]
     have hd0 : d < 0 := by rw [hd] at hneg; simpa using hneg
     have hyd : y ≤ d := by have := hy.2; rw [hd] at this; simpa using this
+    have hyneg : y < 0 := by omega
     have key := fdivGo_sound (lower := neg r1.2) (upper := neg r1.1) (du := neg r2.1) (x := -x) (y := -y) (d := -d)
       (by simpa [PyNum.neg] using neg_le_neg' hx.2) (by simpa [PyNum.neg] using neg_le_neg' hx.1) (by omega) (by omega)
       (by simpa [PyNum.neg] using neg_le_neg' hy.1)
@@ -182,8 +181,8 @@ theorem tfFloorDiv_total {r1 r2 : Rng} (h1 : Valid r1) (h2 : Valid r2) : ∃ r',
         · refine ⟨b, by simp [hab], ?_⟩
           intro hb; apply hz; rw [ha, hb]
         · exact ⟨a, by simp [hab], ha⟩
-      · exact ⟨min b (-1), by simp; omega, by omega⟩
-      · exact ⟨max a 1, by simp; omega, by omega⟩
+      · exact ⟨min b (-1), by simp <;> omega, by omega⟩
+      · exact ⟨max a 1, by simp <;> omega, by omega⟩
       · exact ⟨1, by simp, by omega⟩
     obtain ⟨r', e, m⟩ := tfFloorDiv_sound h1 h2 hx hy hy0
     exact ⟨r', e, valid_of_mem m⟩
@@ -216,8 +215,12 @@ theorem tfMod_sound {r1 r2 : Rng} (h1 : Valid r1) (h2 : Valid r2) {x y : Int} (h
     · refine ⟨_, rfl, ?_, ?_⟩
       · rw [hm]; simpa using hm0
       · rw [hm]
-        have := hy.2
-        rcases valid_cases h2 with ⟨a, b, rfl, _⟩ | ⟨b, rfl⟩ | ⟨a, rfl⟩ | rfl <;> simp_all [PyNum.sub, PyNum.neg, PyNum.add] <;> omega
+        have hyu := hy.2
+        cases hu : r2.2 with
+        | int b => rw [hu] at hyu; simp only [le_int_int] at hyu; simp [sub_int_int]; omega
+        | pinf => simp [PyNum.sub, PyNum.neg, PyNum.add]
+        | ninf => rw [hu] at hyu; simp at hyu
+        | nan => rw [hu] at hyu; simp at hyu
   · cases cs with
     | none => exact ⟨_, rfl, by simp [unbounded]⟩
     | some c => exact ⟨_, rfl, by rw [hcs c rfl]; simp⟩
